@@ -50,13 +50,14 @@ package values
 
 //@ func (values.Range).AsArray
 //@ props C11 C15 C01
+//@ overflow
 //@ assigns alloc S$Val
 //@ ensures length: len(result) == max(0, r.e - r.b + 1)
 //@ ensures elems: forall(k, 0, len(result), result[k] == box(r.b + k))
-//@ loop 1 invariant idx: r.b <= i && i <= max(r.e + 1, r.b)
-//@ loop 1 invariant length: len(a) == i - r.b && cap(a) >= max(0, r.e - r.b + 1) && fresh(a)
+//@ loop 1 invariant idx: 0 <= i && i <= n && n == max(0, r.e - r.b + 1)
+//@ loop 1 invariant length: len(a) == i && cap(a) >= n && fresh(a)
 //@ loop 1 invariant elems: forall(k, 0, len(a), a[k] == box(r.b + k))
-//@ loop 1 decreases r.e + 1 - i
+//@ loop 1 decreases n - i
 
 // ---- comparison (C09, C18) ---------------------------------------------------------
 // Equal/Less are treated as functions of their arguments (pure): within one obligation
